@@ -64,6 +64,7 @@ struct Options {
     int leave_early_pct = 100;   // % of reduce leaves that do not wait for the root
     bool reduce_shuffle = false; // seeded combination order in reduce / all_reduce
     int omp_threads = 1;         // team size used by SimGOMP when the program does not ask for one
+    int omp_procs = 16;          // what omp_get_num_procs() reports: the number of processors is independent of the team size (OMP_NUM_THREADS may exceed it)
     bool omp_shuffle = false;    // seeded execution order of logical OpenMP threads
     int pct_depth = 0;           // PCT: number of priority change points
     long pct_horizon = 2000;     // PCT: change points drawn from [0,horizon)
